@@ -672,9 +672,9 @@ func fieldAux(t types.Type, i int) string {
 	}
 	stt := t.Underlying().(*types.Struct)
 	if n, ok := t.(*types.Named); ok {
-		return n.Obj().Name() + "." + stt.Field(i).Name()
+		return n.Obj().Name() + "." + fname(stt.Field(i))
 	}
-	return stt.Field(i).Name()
+	return fname(stt.Field(i))
 }
 
 func rootOf(addr *Term) *Term {
@@ -728,7 +728,7 @@ func (x *Exec) store(st *State, addr, val *Term, typ types.Type) {
 				if val.Op == "struct" && len(val.Args) == stt.NumFields() {
 					fv = val.Args[i]
 				} else {
-					fv = mk("fieldof", stt.Field(i).Name(), stt.Field(i).Type(), val)
+					fv = mk("fieldof", fname(stt.Field(i)), stt.Field(i).Type(), val)
 				}
 				x.store(st, mk("field", fieldAux(typ, i), nil, addr), fv, stt.Field(i).Type())
 			}
